@@ -68,6 +68,7 @@ func c13(c *Ctx) {
 	c.sectionDispatch()
 	c.partStartsAtScanStart()
 	c.headerEndsAtFirstEmptyLine()
+	c.emptyPartsAreParts()
 	c.sectionWindow("R13.5")
 	P, R := c.P, c.R
 	c.singleIDHeader("R13.4")
@@ -861,4 +862,75 @@ func (c *Ctx) headerEndsAtFirstEmptyLine() {
 		}
 		R.Check(ok, "R13.8", c.name(f)+"|partition", P.Pos(ret.Pos()), "returns b[0:k], b[k:]", "Split does not return a partition b[0:k], b[k:] of its input at one index: HEADER followed by TEXT is no longer BODY[]")
 	}
+}
+
+// emptyPartsAreParts (R13.9): an empty body part keeps its number.
+func (c *Ctx) emptyPartsAreParts() {
+	P, R := c.P, c.R
+	R.Explain("R13.9", "part numbers follow the delimiters: in rfc822.(*ByteScanner).ScanAll whether a scanned part is recorded depends only on the nil test of what readToBoundary returned (nil = input exhausted), never on its length - a part with no bytes between two delimiter lines is still part n, and dropping it renumbers every later sibling so that BODY[n], BODY[n.MIME] and BODY[n.m] answer with another part's bytes.")
+	f := c.fn("R13.9", "rfc822.(*ByteScanner).ScanAll")
+	if f == nil {
+		return
+	}
+	n := 0
+	for _, cs := range engine.Calls(f) {
+		sc := cs.Common().StaticCallee()
+		if sc == nil || engine.ShortName(sc) != "readToBoundary" {
+			continue
+		}
+		call, ok := cs.Instr.(*ssa.Call)
+		if !ok || call.Referrers() == nil {
+			continue
+		}
+		var data ssa.Value
+		for _, r := range *call.Referrers() {
+			if ex, ok := r.(*ssa.Extract); ok && ex.Index == 0 {
+				data = ex
+			}
+		}
+		if data == nil {
+			continue
+		}
+		// branches whose condition depends on data
+		for _, b := range f.Blocks {
+			iff := engine.IfOf(b)
+			if iff == nil {
+				continue
+			}
+			dep, nilTest := false, false
+			if bin, ok := iff.Cond.(*ssa.BinOp); ok {
+				if (bin.X == data && engine.IsNilConst(bin.Y)) || (bin.Y == data && engine.IsNilConst(bin.X)) {
+					dep, nilTest = true, true
+				}
+			}
+			if !dep {
+				engine.Backward(iff.Cond, engine.FlowOpts{Calls: func(cl *ssa.Call) []ssa.Value { return cl.Call.Args }}, func(x ssa.Value) bool {
+					if x == data {
+						dep = true
+					}
+					if bo, ok := x.(*ssa.BinOp); ok {
+						for _, op := range []ssa.Value{bo.X, bo.Y} {
+							if cl, ok := op.(*ssa.Call); ok {
+								for _, a := range cl.Call.Args {
+									if a == data {
+										dep = true
+									}
+								}
+							}
+							if op == data {
+								dep = true
+							}
+						}
+					}
+					return true
+				})
+			}
+			if !dep {
+				continue
+			}
+			n++
+			R.Check(nilTest, "R13.9", c.name(f)+"|part kept iff non-nil", P.Pos(iff.Cond.Pos()), "the only test on the scanned part is the nil test", "ScanAll decides on something other than `part != nil` (its length, its content) whether a scanned part is recorded: an empty part is dropped and the following parts are renumbered")
+		}
+	}
+	R.Min("R13.9", "tests on the scanned part in ScanAll", n, 1)
 }
